@@ -283,7 +283,8 @@ func (vt *Model) cup(pm [][]int) {
 	case 1:
 		vt.cursor.row = row(pm[0][0] - 1)
 		vt.cursor.col = 0
-	case 2:
+	default:
+		// extra parameters are ignored
 		vt.cursor.row = row(pm[0][0] - 1)
 		vt.cursor.col = column(pm[1][0] - 1)
 	}
